@@ -29,7 +29,7 @@ var (
 			"backend that finishes 0.5 s before the period ends is uploaded completely, no pending-list call starts after the first list "+
 			"call that returned >=200 ms after the signal, exit in [grace, grace+2 s]; with grace=0 exit within 2 s; non-trivial = signal "+
 			"while a request is at the backend; distinct = SHA-256 of the scenario"+
-			" Later additions: phases rotate through every batch; phase \"failing\": list calls answered 500 from shortly before the signal (the signal is sent once two failed calls were seen); a response being uploaded at the signal must complete.")
+			" Later additions: phases rotate through every batch; phase \"failing\": list calls answered 500 from shortly before the signal (the signal is sent once two failed calls were seen); a response being uploaded at the signal must complete; phase \"starting\": the signal arrives while the agent still waits for its backend's first passing health check (exit within 2 s without a period, within period+3 s with one, no list call ever).")
 )
 
 func TestMain(m *testing.M) { vh.Main(m, recH, recS) }
@@ -337,7 +337,7 @@ func TestPropHealth(t *testing.T) {
 type ShutScn struct {
 	Signal    string `json:"signal"` // INT | TERM
 	GraceS    int    `json:"grace_s"`
-	Phase     string `json:"phase"` // idle | listed | backend | uploading | failing (the proxy starts failing list calls shortly before the signal)
+	Phase     string `json:"phase"` // idle | listed | backend | uploading | failing (the proxy starts failing list calls shortly before the signal) | starting (health checks have not passed yet)
 	LatencyMs int    `json:"latency_ms"`
 	SignalMs  int    `json:"signal_after_ms"`
 }
@@ -349,7 +349,7 @@ type ShutCase struct {
 // genShutScn draws scenario i of a batch; the phases rotate through the batch (from a drawn offset) so that every
 // batch of 8 contains every phase at least once.
 func genShutScn(t *rapid.T, i, offset int) ShutScn {
-	cycle := []string{"backend", "failing", "listed", "uploading", "idle", "backend", "failing", "backend"}
+	cycle := []string{"backend", "failing", "listed", "uploading", "idle", "backend", "failing", "starting"}
 	s := ShutScn{
 		Signal: rapid.SampledFrom([]string{"INT", "TERM"}).Draw(t, "signal"),
 		GraceS: rapid.SampledFrom([]int{1, 2, 3, 0}).Draw(t, "grace"),
@@ -381,6 +381,14 @@ func runShutScn(s *ShutScn) (o vh.Outcome) {
 			default:
 			}
 			time.Sleep(time.Duration(s.LatencyMs) * time.Millisecond)
+		}
+		if rq.Target == "/never-healthy" {
+			select {
+			case atBackend <- struct{}{}:
+			default:
+			}
+			fmt.Fprintf(c, "HTTP/1.1 503 Service Unavailable\r\nContent-Length: 0\r\n\r\n")
+			return true
 		}
 		body := "response-of-" + rq.Target
 		fmt.Fprintf(c, "HTTP/1.1 200 OK\r\nContent-Length: %d\r\n\r\n%s", len(body), body)
@@ -427,6 +435,10 @@ func runShutScn(s *ShutScn) (o vh.Outcome) {
 	if s.GraceS > 0 {
 		args = append(args, fmt.Sprintf("--graceful-shutdown-timeout=%ds", s.GraceS))
 	}
+	if s.Phase == "starting" {
+		// the backend is not up yet: the agent is still waiting for its first passing health check when the signal arrives
+		args = append(args, "--health-check-interval-seconds=1", "--health-check-path=/never-healthy", "--health-check-unhealthy-threshold=2")
+	}
 	agent, err := vh.StartAgent(meta, fp.URL, backend.Addr, args)
 	if err != nil {
 		o.Inconclusive = err.Error()
@@ -434,6 +446,38 @@ func runShutScn(s *ShutScn) (o vh.Outcome) {
 	}
 	defer agent.Stop()
 	defer close(release)
+	if s.Phase == "starting" {
+		select {
+		case <-atBackend:
+		case <-time.After(15 * time.Second):
+			o.Inconclusive = "no health check arrived"
+			return
+		}
+		time.Sleep(time.Duration(s.SignalMs) * time.Millisecond)
+		sig := syscall.SIGINT
+		if s.Signal == "TERM" {
+			sig = syscall.SIGTERM
+		}
+		tSig := time.Now()
+		agent.Signal(sig)
+		grace := time.Duration(s.GraceS) * time.Second
+		select {
+		case <-agent.Exited():
+		case <-time.After(grace + 3*time.Second):
+			o.Err = fmt.Errorf("SIG%s while the agent was still waiting for its backend to become healthy (graceful-shutdown period %v): the agent was still running %v later", s.Signal, grace, grace+3*time.Second)
+			o.TimedOut = true
+			return
+		}
+		if d := time.Since(tSig); s.GraceS == 0 && d > 2*time.Second {
+			o.Err = fmt.Errorf("without a graceful-shutdown period the agent took %v to exit after SIG%s (it was waiting for its backend to become healthy)", d, s.Signal)
+			o.TimedOut = true
+			return
+		}
+		if n := len(fp.ListCalls()); n > 0 {
+			o.Err = fmt.Errorf("the agent asked the proxy for work %d times although no health check ever passed (signal during start-up)", n)
+		}
+		return
+	}
 	wq := fp.Submit("warmup", "", "GET", []byte("GET /warmup HTTP/1.1\r\nHost: x\r\n\r\n"))
 	if wq.Wait(30*time.Second) == nil {
 		o.Inconclusive = "agent did not come up"
